@@ -7,13 +7,22 @@ pub mod c02;
 pub mod c03;
 pub mod c04;
 pub mod c05;
+pub mod c06;
+pub mod c07;
 pub mod c08;
 pub mod c09;
 pub mod c10;
 pub mod c11;
+pub mod c12;
+pub mod c13;
+pub mod child;
+pub mod c14;
+pub mod c15;
 pub mod c16;
 pub mod c17;
 pub mod c18;
+pub mod c19;
+pub mod c20;
 pub mod decgen;
 pub mod impls;
 
@@ -25,21 +34,34 @@ pub fn property(id: &str, ctx: &Ctx) -> Option<Property> {
         "C03" => c03::property(),
         "C04" => c04::property(),
         "C05" => c05::property(),
+        "C06" => c06::property(),
+        "C07" => c07::property(),
         "C08" => c08::property(),
         "C09" => c09::property(),
         "C10" => c10::property(),
         "C11" => c11::property(),
+        "C12" => c12::property(),
+        "C13" => c13::property(),
+        "C14" => c14::property(),
+        "C15" => c15::property(),
         "C16" => c16::property(),
         "C18" => c18::property(),
+        "C19" => c19::property(),
+        "C20" => c20::property(),
         "C17" => c17::property(),
         _ => return None,
     })
 }
 
 pub fn child_main(args: &[String]) -> ! {
-    let _ = args;
-    eprintln!("vcheck child: no child kinds yet");
-    std::process::exit(2)
+    match args.first().map(|s| s.as_str()) {
+        Some("c13") => c13::child_main(),
+        Some("c19") => c19::child_main(),
+        _ => {
+            eprintln!("vcheck child: unknown kind {args:?}");
+            std::process::exit(2)
+        }
+    }
 }
 
 pub fn selftest() -> bool {
